@@ -87,10 +87,10 @@ def run_spec(c, vsc, width, signed, bins_spec, ignore, illegal, auto_max, sample
     except Exception as e:
         if not exp:
             return          # a coverpoint without any bin is outside the property (nothing to count)
-        c.prove("%s: building the covergroup raises nothing" % tag, False, info=repr(e))
+        c.check("%s: building the covergroup raises nothing" % tag, False, info=repr(e))
         return
     m = inst.get_model().coverpoint_l[0]
-    c.prove("%s: number of regular bins" % tag, m.get_n_bins() == len(exp))
+    c.check("%s: number of regular bins" % tag, m.get_n_bins() == len(exp))
     if m.get_n_bins() != len(exp):
         return
     want = [0] * len(exp)
@@ -107,18 +107,18 @@ def run_spec(c, vsc, width, signed, bins_spec, ignore, illegal, auto_max, sample
             if v in spec_values(illegal):
                 wil += 1
     got = [m.get_bin_hits(j) for j in range(m.get_n_bins())]
-    c.prove("%s: every bin's hit count == number of gated-on samples inside its value set" % tag, got == want)
+    c.check("%s: every bin's hit count == number of gated-on samples inside its value set" % tag, got == want)
     if ignore:
-        c.prove("%s: ignore counter" % tag, m.get_n_ignore_bins() == 1 and m.get_ignore_bin_hits(0) == wig)
+        c.check("%s: ignore counter" % tag, m.get_n_ignore_bins() == 1 and m.get_ignore_bin_hits(0) == wig)
     if illegal:
-        c.prove("%s: illegal counter" % tag, m.get_n_illegal_bins() == 1 and m.get_illegal_bin_hits(0) == wil)
+        c.check("%s: illegal counter" % tag, m.get_n_illegal_bins() == 1 and m.get_illegal_bin_hits(0) == wil)
     tm = inst.get_model().type_cg.coverpoint_l[0]
-    c.prove("%s: type-level hits == instance hits (single instance)" % tag,
+    c.check("%s: type-level hits == instance hits (single instance)" % tag,
             [tm.get_bin_hits(j) for j in range(tm.get_n_bins())] == want)
     if want:
         cov = inst.get_inst_coverage()
         exp_cov = 100.0 * sum(1 for x in want if x >= 1) / len(want)
-        c.prove("%s: coverage == share of covered bins" % tag, abs(cov - exp_cov) < 1e-3)
+        c.check("%s: coverage == share of covered bins" % tag, abs(cov - exp_cov) < 1e-3)
 
 
 RANGE_SETS = [
@@ -248,10 +248,10 @@ def c_cross_family(c, kinds, cross_iff, cp_iff):
     tot = 1
     for d in dims:
         tot *= d
-    c.prove("one cross bin per combination of coverpoint bins", xm.get_n_bins() == tot)
+    c.check("one cross bin per combination of coverpoint bins", xm.get_n_bins() == tot)
     names = [[m.coverpoint_l[i].get_bin_name(j) for j in range(dims[i])] for i in range(k)]
     tuples = list(itertools.product(*[range(d) for d in dims]))
-    c.prove("cross bins are named and ordered after the coverpoints' bins",
+    c.check("cross bins are named and ordered after the coverpoints' bins",
             [xm.get_bin_name(i) for i in range(tot)] == ["<" + ",".join(names[j][t[j]] for j in range(k)) + ">" for t in tuples])
     seq = []
     vals = list(itertools.product(range(4), repeat=k))
@@ -276,10 +276,10 @@ def c_cross_family(c, kinds, cross_iff, cp_iff):
         delta = [a - b for a, b in zip(after, before)]
         if hit:
             ok = sum(delta) == 1 and all(d in (0, 1) for d in delta) and delta.index(1) in hit
-            c.prove("joint hit: exactly the cross bin of the hit combination +1", ok,
+            c.check("joint hit: exactly the cross bin of the hit combination +1", ok,
                     info="sample=%s delta=%s expected one of %s" % ((v, gx, gc), delta, hit))
         else:
-            c.prove("gated-off or missed sample: no cross bin changes", all(d == 0 for d in delta),
+            c.check("gated-off or missed sample: no cross bin changes", all(d == 0 for d in delta),
                     info="sample=%s delta=%s" % ((v, gx, gc), delta))
 
 
@@ -326,9 +326,9 @@ def c_agg_family(c, shapes, at_least, wts):
     for i, s in enumerate(shapes):
         types.setdefault(s, []).append(i)
     tm = [i.get_model().type_cg for i in insts]
-    c.prove("instances of the same shape share one type model; different shapes form separate types",
+    c.check("instances of the same shape share one type model; different shapes form separate types",
             all((tm[i] is tm[j]) == (shapes[i] == shapes[j]) for i in range(len(shapes)) for j in range(len(shapes))))
-    c.prove("every type is registered exactly once",
+    c.check("every type is registered exactly once",
             len(CoverageRegistry.inst().covergroup_types()) == len(types))
 
     def cov_of(hs):
@@ -352,10 +352,10 @@ def c_agg_family(c, shapes, at_least, wts):
         for k2, inst in enumerate(insts):
             m = inst.get_model()
             got = [[m.coverpoint_l[q].get_bin_hits(j) for j in range(m.coverpoint_l[q].get_n_bins())] for q in (0, 1)]
-            c.prove("an instance accumulates only its own samples", got == hits[k2],
+            c.check("an instance accumulates only its own samples", got == hits[k2],
                     info="step %d inst %d got %s want %s" % (step, k2, got, hits[k2]))
             ic = inst.get_inst_coverage()
-            c.prove("instance coverage == weighted share of bins at their at_least threshold; within 0..100; never decreases",
+            c.check("instance coverage == weighted share of bins at their at_least threshold; within 0..100; never decreases",
                     abs(ic - cov_of(hits[k2])) < 1e-3 and 0.0 <= ic <= 100.0 and ic >= last_inst[k2] - 1e-9,
                     info="step %d inst %d got %s want %s" % (step, k2, ic, cov_of(hits[k2])))
             last_inst[k2] = ic
@@ -363,10 +363,10 @@ def c_agg_family(c, shapes, at_least, wts):
             t = tm[members[0]]
             got = [[t.coverpoint_l[q].get_bin_hits(j) for j in range(t.coverpoint_l[q].get_n_bins())] for q in (0, 1)]
             want = [[sum(hits[m_][q][j] for m_ in members) for j in range(len(hits[members[0]][q]))] for q in (0, 1)]
-            c.prove("type hits == bin-wise sum over the instances of that shape", got == want,
+            c.check("type hits == bin-wise sum over the instances of that shape", got == want,
                     info="step %d shape %d got %s want %s" % (step, s, got, want))
             tc = insts[members[0]].get_coverage()
-            c.prove("type coverage == weighted share of type bins at threshold; within 0..100; never decreases; 100 iff all covered",
+            c.check("type coverage == weighted share of type bins at threshold; within 0..100; never decreases; 100 iff all covered",
                     abs(tc - cov_of(want)) < 1e-3 and 0.0 <= tc <= 100.0 and tc >= last_type[s] - 1e-9 and
                     ((tc == 100.0) == all(x >= at_least for q in (0, 1) for x in want[q] if wts[q])),
                     info="step %d shape %d got %s want %s" % (step, s, tc, cov_of(want)))
